@@ -191,7 +191,7 @@ func evalStore(cs Case) (*core.Fail, bool) {
 		{"vtproto", &marshaller.VTproto{}, true, false},
 		{"proto", &marshaller.Proto{}, true, true},
 		{"protoingfast", &marshaller.ProtoingFast{}, true, true}, // decodes with proto.Unmarshal
-		{"binary", &marshaller.Binary{}, false, false},          // by its own TODO does not encode prefixes
+		{"binary", &marshaller.Binary{}, false, false},           // by its own TODO does not encode prefixes
 	}
 	encoded := map[string][]byte{}
 	for _, x := range ms {
